@@ -14,6 +14,11 @@ type HashKey struct {
 
 	// Value holds the actual hash-key value.
 	Value uint64
+
+	// Text holds the text which was hashed to get Value, for the
+	// keys which are hashed: two different strings may have the
+	// same 64-bit hash, and must not become the same key.
+	Text string
 }
 
 // HashPair is a structure which is used to store hash-entries
